@@ -92,6 +92,8 @@ def seed_padded(ver):
 
 
 def seed_bighdr(ver, ndims=60, natts=45, nvars=22):
+    if ver == 5:
+        ndims, natts, nvars = 45, 34, 17
     """well over a hundred header objects, sized to stay below the fuzzer's -max_len=4096 (fuzzer seed only; too long
     for the exhaustive enumeration)"""
     ts = ALL_TYPES[ver]
@@ -117,8 +119,22 @@ def scipy_samples():
     return out
 
 
-def enum_seeds():
-    """name -> bytes; small headers (<= ~600 bytes) so that the exhaustive enumeration stays cheap"""
+def seed_newtypes_v5():
+    """the five external types that only CDF-5 has, as attributes and variables"""
+    ts = [7, 8, 9, 10, 11]
+    f = C.CDFFile(version=5, numrecs=0, dims=[C.Dim(b"d", 2)],
+                  gatts=[_att(b"g%d" % t, t, 1 + t % 3) for t in ts],
+                  vars=[C.Var(b"v%d" % t, t, [0] if t % 2 else []) for t in ts])
+    return _finish(f)
+
+
+QUICK_ENUM = ["record_v1", "record_v2", "record_v5", "alltypes_v1", "newtypes_v5", "onerec_v1", "onerec_v2", "onerec_v5", "padded_v2",
+              "empty_v1", "empty_v5_tag0", "dimsonly_v2", "scipy_example_2"]
+
+
+def enum_seeds(tier="thorough"):
+    """name -> bytes; small headers (<= ~600 bytes in the quick tier) so that the exhaustive enumeration stays cheap.
+    quick: one seed per structural feature and format (about 50k inputs); thorough: all of them plus the big-header files"""
     s = {}
     for v in (1, 2, 5):
         s["fixed_v%d" % v] = seed_fixed(v)
@@ -126,18 +142,21 @@ def enum_seeds():
         s["onerec_v%d" % v] = seed_onerec(v)
         s["alltypes_v%d" % v] = seed_alltypes(v)
         s["padded_v%d" % v] = seed_padded(v)
+    s["newtypes_v5"] = seed_newtypes_v5()
     s["empty_v1"] = seed_empty(1)
     s["empty_v5_tag0"] = seed_empty(5, "tag0")
     s["dimsonly_v2"] = seed_dimsonly(2)
     for k, b in scipy_samples().items():
         s[k] = b
+    if tier == "quick":
+        return {k: s[k] for k in QUICK_ENUM if k in s}
+    for v in (1, 2, 5):
+        s["bighdr_v%d" % v] = seed_bighdr(v)
     return s
 
 
 def fuzz_seeds():
-    s = dict(enum_seeds())
-    for v in (1, 2, 5):
-        s["bighdr_v%d" % v] = seed_bighdr(v)
+    s = dict(enum_seeds("thorough"))
     s["empty_v2_tag0"] = seed_empty(2, "tag0")
     return s
 
